@@ -295,18 +295,34 @@ func c12Mult(c *Ctx, fnm map[string]*ssa.Function) {
 	if f := fnm["findYi"]; f != nil {
 		be := newBigEnv(f, paramNames(f, "Y", "index"))
 		ok := false
-		for _, ifi := range ifsOf(f) {
-			s := be.plain(ifi.Cond, ifi).String()
-			if s == "eq(and(0x1,shr(idx(Y,quo(index,0x8)),sub(0x7,rem(index,0x8)))),0x1)" {
-				// true -> return 1
-				t := ifi.Block().Succs[0]
-				if r, isRet := t.Instrs[len(t.Instrs)-1].(*ssa.Return); isRet {
-					if k, isC := constInt(r.Results[0]); isC && k == 1 {
-						ok = true
-					}
+		if len(ifsOf(f)) > 0 {
+			// decided on values: assume the selected bit is 1 (then 0); every return that stays reachable is that constant
+			bit := "and(0x1,shr(idx(Y,quo(index,0x8)),sub(0x7,rem(index,0x8))))"
+			cix := newCondIndex(f, paramNames(f, "Y", "index"))
+			tested := false
+			for _, s := range cix.conds {
+				if strings.Contains(s, bit) {
+					tested = true
+				} else {
+					dbg("findYi cond: %s", s)
 				}
-			} else {
-				dbg("findYi cond: %s", s)
+			}
+			ok = tested
+			for _, want := range []int64{1, 0} {
+				cix.withAssumptions([]assumption{{"eq(" + bit + ",0x1)", want == 1}, {"ne(" + bit + ",0x0)", want == 1}}, func() {
+					n := 0
+					for b := range reach([]*ssa.BasicBlock{f.Blocks[0]}, deadEdges(f)) {
+						if r, isRet := b.Instrs[len(b.Instrs)-1].(*ssa.Return); isRet && len(r.Results) == 1 {
+							n++
+							if k, isC := constInt(r.Results[0]); !isC || k != want {
+								ok = false
+							}
+						}
+					}
+					if n == 0 {
+						ok = false
+					}
+				})
 			}
 		}
 		if !ok && len(ifsOf(f)) == 0 {
@@ -542,19 +558,31 @@ func c12Formulas(c *Ctx, fnm map[string]*ssa.Function) {
 	}
 	if f := fnm["GetY0"]; f != nil {
 		be := newBigEnv(f, paramNames(f, "H", "IV"))
+		// decided on values: the returns that stay reachable with len(IV) == 12, and with len(IV) below / above 12
 		got := map[string]string{}
-		for _, b := range f.Blocks {
-			if r, isR := b.Instrs[len(b.Instrs)-1].(*ssa.Return); isR {
-				conds := dominatingConds(be, b)
-				key := "other"
-				for k := range conds {
-					if k == "eq(mul(0x8,len(IV)),0x60)=true" || k == "eq(len(IV),0xc)=true" {
-						key = "96"
-					}
-				}
-				got[key] = be.bytesOf(r.Results[0], r).String()
+		cix := newCondIndex(f, paramNames(f, "H", "IV"))
+		collect := func(key string, lo, hi int64) {
+			mlo, mhi := lo*8, hi*8
+			if hi < lo {
+				mhi = mlo - 1
 			}
+			cix.withInterval("len(IV)", lo, hi, func() {
+				cix.withInterval("mul(0x8,len(IV))", mlo, mhi, func() {
+					for b := range reach([]*ssa.BasicBlock{f.Blocks[0]}, deadEdges(f)) {
+						if r, isR := b.Instrs[len(b.Instrs)-1].(*ssa.Return); isR {
+							s := be.bytesOf(r.Results[0], r).String()
+							if old, seen := got[key]; seen && old != s {
+								s = old + " | " + s
+							}
+							got[key] = s
+						}
+					}
+				})
+			})
 		}
+		collect("96", 12, 12)
+		collect("other", 0, 11)
+		collect("other", 13, 12)
 		ok := (got["96"] == "concat(make(0x0),IV,lit(0x0,0x0,0x0,0x1))" || got["96"] == "concat(IV,lit(0x0,0x0,0x0,0x1))") && got["other"] == "call:sm4.GHASH(H,concat(),IV)"
 		c.Check(ok, "K-C12-formulas", fname(f), "J0 = IV||0^31||1 (96-bit IV) else GHASH(H, {}, IV)", "", fmt.Sprintf("J0 derivation is %v", got), f.Pos())
 	}
@@ -583,9 +611,25 @@ func c12Formulas(c *Ctx, fnm map[string]*ssa.Function) {
 		}
 		okTag := false
 		detail := ""
+		// MSB(128, X) or the slice expression X[:16]
+		var inner ssa.Value
+		bits := int64(-1)
+		recognised := false
 		if msb, isCall := tagv.(*ssa.Call); isCall && msb.Call.StaticCallee() != nil && msb.Call.StaticCallee().Name() == "MSB" {
-			bits, _ := constInt(msb.Call.Args[0])
-			if add, isAdd := msb.Call.Args[1].(*ssa.Call); isAdd && add.Call.StaticCallee() != nil && add.Call.StaticCallee().Name() == "addition" {
+			bits, _ = constInt(msb.Call.Args[0])
+			inner = msb.Call.Args[1]
+		} else if sl, isSl := tagv.(*ssa.Slice); isSl && sl.High != nil {
+			lo := int64(0)
+			if sl.Low != nil {
+				lo, _ = constInt(sl.Low)
+			}
+			if hi, isK := constInt(sl.High); isK && lo == 0 {
+				bits, inner = 8*hi, sl.X
+			}
+		}
+		if inner != nil {
+			if add, isAdd := inner.(*ssa.Call); isAdd && add.Call.StaticCallee() != nil && add.Call.StaticCallee().Name() == "addition" {
+				recognised = true
 				enc := lastEncryptInto(f, add.Call.Args[0], add)
 				gh := ""
 				encSrc := ""
@@ -604,7 +648,11 @@ func c12Formulas(c *Ctx, fnm map[string]*ssa.Function) {
 				detail = fmt.Sprintf("bits=%d E(K,·) over %s, GHASH term %s", bits, encSrc, gh)
 			}
 		}
-		c.Check(okTag, "K-C12-formulas", fn, "T = MSB_128(E(K,J0) xor GHASH(H,A,C))", "", "tag computation deviates: "+detail, ret.Pos())
+		if !recognised {
+			c.Undecided("K-C12-formulas", fn, "T = MSB_128(E(K,J0) xor GHASH(H,A,C))", "the tag is not written as the leading bytes of addition(E(K,J0), GHASH(...))", ret.Pos())
+		} else {
+			c.Check(okTag, "K-C12-formulas", fn, "T = MSB_128(E(K,J0) xor GHASH(H,A,C))", "", "tag computation deviates: "+detail, ret.Pos())
+		}
 		// counter blocks and CTR loop
 		Y := "call:sm4.incr(add(0x1,res0(call:sm4." + n + "$1(quo(len(" + text + "),0x10),rem(len(" + text + "),0x10))))," + Y0 + ")"
 		okCtr := false
